@@ -260,6 +260,8 @@ lyplg_type_store_binary(const struct ly_ctx *ctx, const struct lysc_type *type, 
     LY_ERR ret = LY_SUCCESS;
     struct lysc_type_bin *type_bin = (struct lysc_type_bin *)type;
     struct lyd_value_binary *val;
+    char *canon;
+    size_t canon_len;
 
     /* init storage */
     memset(storage, 0, sizeof *storage);
@@ -307,7 +309,13 @@ lyplg_type_store_binary(const struct ly_ctx *ctx, const struct lysc_type *type, 
     LY_CHECK_GOTO(ret, cleanup);
 
     /* store canonical value */
-    if (options & LYPLG_TYPE_STORE_DYNAMIC) {
+    if (format != LY_VALUE_CANON) {
+        /* the encoded octets, the input may differ in the unused bits of its last character */
+        ret = binary_base64_encode(ctx, val->data, val->size, &canon, &canon_len);
+        LY_CHECK_GOTO(ret, cleanup);
+        ret = lydict_insert_zc(ctx, canon, &storage->_canonical);
+        LY_CHECK_GOTO(ret, cleanup);
+    } else if (options & LYPLG_TYPE_STORE_DYNAMIC) {
         ret = lydict_insert_zc(ctx, (char *)value, &storage->_canonical);
         options &= ~LYPLG_TYPE_STORE_DYNAMIC;
         LY_CHECK_GOTO(ret, cleanup);
